@@ -14,7 +14,9 @@ EXPLANATION = (
     "each leaf encoding use inverse std primitives of the same flavour (to_le/from_le, to_be/from_be, "
     "from_hex/encode_hex, CP437 encode/decode, clone/to_vec); (d) tag, length and payload are framed in the "
     "same order by serialize_tagged and deserialize_tagged and the length written is the payload's length; "
-    "(e) tagged rows of one struct have pairwise distinct tags.")
+    "(e) tagged rows of one struct have pairwise distinct tags; (f) no narrowing cast on the encode path alters a "
+    "value derived from the input unless a dominating guard proves it fits (values the wire format cannot carry are "
+    "tabled exceptions).")
 RULE = ("C01-a sibling agreement of extracted encoder/decoder layout tables; C01-b derives-from(param) for "
         "every used Encoding::encode and every serialize_tagged impl; C01-c inverse-primitive table; C01-d frame "
         "order by def-use of the append chain and dominance of TE::decode < L::deserialize < E::decode; "
@@ -204,6 +206,55 @@ def run(ctx, chk):
     chk.floor("leaf encodings analysed", n_leaf, 15)
     # ---- C01-b for serialize_tagged impls, C01-d frame order
     frames(chk, zb, zvt)
+    encoder_truncation(chk, zb, zvt, used)
+
+
+# Narrowing casts on the encode path silently alter what the caller put in, unless a dominating
+# guard shows the value fits.  Values the wire format cannot carry are outside the property's domain:
+ENC_TRUNCATION_EXCEPTIONS = {
+    ("<zvt_builder::length::Adpu as zvt_builder::length::Length>::serialize", "usize as u16"):
+        "APDU bodies above 65535 bytes are not representable",
+    ("<zvt_builder::encoding::Default as zvt_builder::encoding::Encoding<zvt_builder::Tag>>::encode", "u16 as u8"):
+        "tags outside the one-byte page and the two-byte pages 1Fxx / FFxx are not representable",
+}
+
+
+def encoder_truncation(chk, zb, zvt, used):
+    import sites
+    from discharge import make_prover, check_site
+    crates = [zb, zvt]
+    bodies = []
+    for c in crates:
+        for b in c.bodies.values():
+            r = b.raw
+            tr = r.get("impl_trait") or r.get("in_trait")
+            if r["defkind"] != "AssocFn":
+                continue
+            if tr == "zvt_builder::length::Length" and r.get("name") == "serialize":
+                bodies.append(b)
+            elif tr == "zvt_builder::ZvtSerializerImpl" and r.get("name") == "serialize_tagged":
+                bodies.append(b)
+            elif tr == ENC and r.get("name") == "encode":
+                key = (ty_str(r.get("impl_self")), ty_str(r["impl_trait_args"][1]) if len(r["impl_trait_args"]) > 1 else "")
+                if key in used or r.get("x") == "Zvt":
+                    bodies.append(b)
+    n = 0
+    for b in bodies:
+        pr = None
+        for s in sites.enumerate_sites(b):
+            if s["kind"] != "truncation":
+                continue
+            pr = pr or make_prover(b, crates)
+            n += 1
+            ok, why = check_site(pr, s)
+            exc = ENC_TRUNCATION_EXCEPTIONS.get((b.id, s["detail"]))
+            if not ok and exc:
+                chk.ok("C01-f/no-encoder-truncation", "%s %s" % (b.id, s["detail"]), "tabled: " + exc, s.get("sp"), nontrivial=False)
+                continue
+            chk.require(ok, "C01-f/no-encoder-truncation", "%s %s" % (b.id, s["detail"]),
+                        "the encoder narrows a value derived from its input without a guard (%s): what the caller put in is silently "
+                        "altered" % why[:140], why[:100], s.get("sp"), key="C01-f/no-encoder-truncation|%s|%s" % (b.id, s["detail"]))
+    chk.floor("encoder cast sites", n, 12)
 
 
 def frames(chk, zb, zvt):
